@@ -6,6 +6,7 @@ import Drivers.StoreD
 import Drivers.RotD
 import Drivers.CodecD
 import Drivers.TimerD
+import Drivers.XmlD
 
 def main (args : List String) : IO UInt32 := do
   let stdin ← IO.getStdin
@@ -19,4 +20,5 @@ def main (args : List String) : IO UInt32 := do
   | ["rot"] => Drivers.loop stdin () (fun _ l => ((), Drivers.RotD.step l)); return 0
   | ["codec"] => Drivers.loop stdin () (fun _ l => ((), Drivers.CodecD.step l)); return 0
   | ["timer"] => Drivers.loop stdin ({} : Drivers.TimerD.St) Drivers.TimerD.step; return 0
+  | ["xml"] => Drivers.loop stdin () (fun _ l => ((), Drivers.XmlD.step l)); return 0
   | _ => IO.eprintln "usage: driver <stream>"; return 2
